@@ -454,3 +454,132 @@ func HasBad(infos []Info) (any bool, badNodes int) {
 	}
 	return
 }
+
+// ShareSiblings rewrites the tree so that, inside every node, a later node-typed slot (field or slice element) holds
+// the very same instance as an earlier slot of the same dynamic type: a hand-built tree with shared subtrees (a DAG,
+// never a cycle). Returns the number of slots rewritten. Traversal is defined over fields, so it still has to
+// enumerate every slot.
+func ShareSiblings(root ast.Node) int {
+	shared := 0
+	seen := map[uintptr]bool{}
+	var rec func(n ast.Node)
+	rec = func(n ast.Node) {
+		v := reflect.ValueOf(n)
+		if v.Kind() != reflect.Ptr || v.IsNil() || v.Elem().Kind() != reflect.Struct {
+			return
+		}
+		if seen[v.Pointer()] {
+			return
+		}
+		seen[v.Pointer()] = true
+		sv := v.Elem()
+		st := sv.Type()
+		first := map[reflect.Type]reflect.Value{} // dynamic type -> first instance inside this node
+		visit := func(slot reflect.Value) {
+			if slot.IsNil() {
+				return
+			}
+			child, ok := slot.Interface().(ast.Node)
+			if !ok || IsNilNode(child) {
+				return
+			}
+			dt := reflect.TypeOf(child)
+			if prev, ok := first[dt]; ok && slot.CanSet() && prev.Type().AssignableTo(slot.Type()) {
+				if pn, ok := prev.Interface().(ast.Node); ok && smallerThan(pn, 40) {
+					slot.Set(prev)
+					shared++
+				}
+				return
+			}
+			if slot.Kind() == reflect.Interface {
+				first[dt] = slot.Elem()
+			} else {
+				first[dt] = slot
+			}
+		}
+		for i := 0; i < st.NumField(); i++ {
+			f := st.Field(i)
+			if !f.IsExported() {
+				continue
+			}
+			fv := sv.Field(i)
+			switch {
+			case isNodeType(f.Type):
+				visit(fv)
+			case f.Type.Kind() == reflect.Slice && isNodeType(f.Type.Elem()):
+				for j := 0; j < fv.Len(); j++ {
+					visit(fv.Index(j))
+				}
+			}
+		}
+		// descend (after rewriting) into the distinct children
+		for i := 0; i < st.NumField(); i++ {
+			f := st.Field(i)
+			if !f.IsExported() {
+				continue
+			}
+			fv := sv.Field(i)
+			switch {
+			case isNodeType(f.Type):
+				if !fv.IsNil() {
+					if c, ok := fv.Interface().(ast.Node); ok && !IsNilNode(c) {
+						rec(c)
+					}
+				}
+			case f.Type.Kind() == reflect.Slice && isNodeType(f.Type.Elem()):
+				for j := 0; j < fv.Len(); j++ {
+					if ev := fv.Index(j); !ev.IsNil() {
+						if c, ok := ev.Interface().(ast.Node); ok && !IsNilNode(c) {
+							rec(c)
+						}
+					}
+				}
+			}
+		}
+	}
+	rec(root)
+	return shared
+}
+
+// smallerThan reports whether the subtree of n has fewer than limit nodes (counting stops at the limit).
+func smallerThan(n ast.Node, limit int) bool {
+	cnt := 0
+	var rec func(n ast.Node) bool
+	rec = func(n ast.Node) bool {
+		cnt++
+		if cnt >= limit {
+			return false
+		}
+		v := reflect.ValueOf(n)
+		if v.Kind() != reflect.Ptr || v.IsNil() || v.Elem().Kind() != reflect.Struct {
+			return true
+		}
+		sv := v.Elem()
+		st := sv.Type()
+		for i := 0; i < st.NumField(); i++ {
+			f := st.Field(i)
+			if !f.IsExported() {
+				continue
+			}
+			fv := sv.Field(i)
+			switch {
+			case isNodeType(f.Type):
+				if !fv.IsNil() {
+					if c, ok := fv.Interface().(ast.Node); ok && !IsNilNode(c) && !rec(c) {
+						return false
+					}
+				}
+			case f.Type.Kind() == reflect.Slice && isNodeType(f.Type.Elem()):
+				for j := 0; j < fv.Len(); j++ {
+					if ev := fv.Index(j); !ev.IsNil() {
+						if c, ok := ev.Interface().(ast.Node); ok && !IsNilNode(c) && !rec(c) {
+							return false
+						}
+					}
+				}
+			}
+		}
+		return true
+	}
+	return rec(n)
+}
